@@ -838,7 +838,9 @@ class Builder:
             else:
                 self.dangling = starts
             ends.extend(self._inline(getattr(res, 'via', None) or e, t,
-                                     frame, res))
+                                     frame, res,
+                                     arg_frame=getattr(res, 'via_frame',
+                                                       None)))
         if rest or res.externals:
             self.dangling = [(branch, 'alt')] if branch is not None \
                 else starts
@@ -877,6 +879,7 @@ class Builder:
                              keywords=kw)
             ast.copy_location(synth, e)
             synth._via_with_timeout = e
+            synth._orig = e
             try:
                 r2 = self._resolve(synth, frame)
             except Exception:
@@ -910,6 +913,23 @@ class Builder:
                                       recv_is_self=True)]
                 return out
             return res
+        if isinstance(arg, ast.Call) and arg.args:
+            # functools.partial(fn, a, b)(c)  ==  fn(a, b, c)
+            synth = ast.Call(func=arg.args[0],
+                             args=list(arg.args[1:]) + list(e.args),
+                             keywords=list(arg.keywords) + list(e.keywords))
+            ast.copy_location(synth, e)
+            synth._orig = e
+            try:
+                r2 = self._resolve(synth, afr)
+            except Exception:
+                return res
+            if r2.targets or r2.externals:
+                r2 = self._copy_res(r2)
+                r2.via = synth
+                r2.via_frame = afr
+                return r2
+            return res
         if isinstance(arg, ast.Attribute):
             synth = ast.Call(func=arg, args=list(e.args),
                              keywords=list(e.keywords))
@@ -922,7 +942,9 @@ class Builder:
                 return r2
         return res
 
-    def _inline(self, e: ast.Call, t: Target, frame, res, thread=False):
+    def _inline(self, e: ast.Call, t: Target, frame, res, thread=False,
+                arg_frame=None):
+        af = arg_frame or frame
         same = frame.self_same and t.recv_is_self
         cctx = t.ctx()
         lits = []
@@ -978,7 +1000,7 @@ class Builder:
             if res.ctor_of:
                 recv = None
             b = self._emit('bind', None, callee)
-            b.extra.update(param=params[0], arg=recv, arg_frame=frame,
+            b.extra.update(param=params[0], arg=recv, arg_frame=af,
                            is_self=True)
             params = params[1:]
         for i, pname in enumerate(params):
@@ -1001,11 +1023,13 @@ class Builder:
                         not any(k.arg is None for k in e.keywords):
                     default = f.node.args.defaults[di]
             b = self._emit('bind', None, callee)
-            b.extra.update(param=pname, arg=arg, arg_frame=frame,
+            b.extra.update(param=pname, arg=arg, arg_frame=af,
                            default=default, is_self=False)
-            if arg is not None and isinstance(arg, (ast.Name,
-                                                    ast.Attribute)):
-                callee.bindings[pname] = (arg, frame)
+            if arg is not None and (isinstance(arg, (ast.Name,
+                                                     ast.Attribute)) or (
+                    isinstance(arg, ast.Call) and
+                    ast.unparse(arg.func).endswith('partial') and arg.args)):
+                callee.bindings[pname] = (arg, af)
         self._body(f.node.body, callee)
         if thread:
             # falling off the end returns None
